@@ -47,7 +47,7 @@ echo "$mut_res" | grep -q '^ok' && mut_ok=0 || mut_ok=1
 rm -f "$sub/zz_seeded_demo_test.go"
 # full suite with the change
 go test -vet=off -count=1 ./... 2>&1 | grep -E '^(ok|FAIL|---)' > /tmp/confirm/$ID-$M.suite
-suite_fail=$(grep -E '^(FAIL|--- FAIL)' /tmp/confirm/$ID-$M.suite | grep -v -E 'ExampleNew|^FAIL\s+github.com/regclient/regclient\s' | tr '\n' ';')
+suite_fail=$(grep -E '^(--- FAIL|FAIL[[:space:]]+[^[:space:]]+)' /tmp/confirm/$ID-$M.suite | grep -v ExampleNew | grep -v -P '^FAIL\tgithub.com/regclient/regclient\t' | tr '\n' ';')
 cp "$OUT/$M.diff" "$DST/patch.diff"
 cp "$demo" "$DST/$(basename $demo)"
 [ -f "$OUT/$M.md" ] && cp "$OUT/$M.md" "$DST/notes.md"
